@@ -218,10 +218,10 @@ def post_tanh_policy(E, prefix, box, y, out):
 # =========================================================================
 # harness pieces
 # =========================================================================
-def _dims(E, batch):
-    A = E.dim("D_act", 1)
-    D = E.dim("D_obs", 1)
-    bs = () if not batch else (E.dim("N", 1),)
+def _dims(E, batch, act1=False):
+    D = E.dim("D_obs", 1)  # created first: concrete-size confirmation runs then use D_act = 2 (per-dimension bounds differ)
+    A = 1 if act1 else E.dim("D_act", 1)  # act1: degenerate scenario with ONE action component (python int 1)
+    bs = () if not batch else ((1,) if batch == 1 else (E.dim("N", 1),))
     return A, D, bs
 
 
@@ -235,9 +235,9 @@ def _policies(E, kind, box, A):
     return pol, (lambda obs: E.call(pol, obs))
 
 
-def mk_h_sample_actions(kind, batch):
+def mk_h_sample_actions(kind, batch, act1=False):
     def h(E):
-        A, D, bs = _dims(E, batch)
+        A, D, bs = _dims(E, batch, act1)
         box = mk_box(E, "action_space", A)
         sigma = E.real("exploration_noise")
         policy, apply = _policies(E, kind, box, A)
@@ -255,9 +255,9 @@ def mk_h_sample_actions(kind, batch):
     return h
 
 
-def mk_h_sample_target_actions(kind, batch):
+def mk_h_sample_target_actions(kind, batch, act1=False):
     def h(E):
-        A, D, bs = _dims(E, batch)
+        A, D, bs = _dims(E, batch, act1)
         box = mk_box(E, "action_space", A)
         sigma = E.real("exploration_noise")
         noise_clip = E.real("noise_clip", 0)  # requires noise_clip >= 0
@@ -276,9 +276,9 @@ def mk_h_sample_target_actions(kind, batch):
     return h
 
 
-def mk_h_tanh(batch):
+def mk_h_tanh(batch, act1=False):
     def h(E):
-        A, D, bs = _dims(E, batch)
+        A, D, bs = _dims(E, batch, act1)
         box = mk_box(E, "action_space", A)
         net = mk_net(E, "pi", A)
         pol = E.call(TANH, net, box)
@@ -594,9 +594,14 @@ def h_init_mpc_optimizer(E):
     assume_within(E, "pre.samples_in_bounds", samples, lbs, ubs)
     fitness = T.fresh_tensor("fitness", (n_samples,), REAL)
     mean2, var2 = E.call(update_fn, samples, fitness, mean, var)
-    n_elite = LIB.builtins["int"].fn(E, C.binop("*", C.frac_of(0.1), n_samples))
-    E.oblige("mpc.update_fn.n_elite_at_least_one", C.compare(">=", n_elite, 1))
-    post_cem_update(E, "mpc.update_fn", samples, fitness, mean, var, n_elite, C.frac_of(0.1), lbs, ubs, mean2, var2)
+    # witnesses of "update_fn is cem_update for SOME 1 <= n_elite <= n_samples and 0 <= alpha <= 1":
+    # the parameters bound by the returned partial (documented defaults: int(0.1 * n_samples), 0.1)
+    kw = update_fn.kwargs if isinstance(update_fn, C.Partial) else {}
+    n_elite = kw.get("n_elite", LIB.builtins["int"].fn(E, C.binop("*", C.frac_of(0.1), n_samples)))
+    alpha = kw.get("alpha", C.frac_of(0.1))
+    E.oblige("mpc.update_fn.n_elite_in_range", band(C.compare(">=", n_elite, 1), C.compare("<=", n_elite, n_samples)), assume_after=False)
+    E.oblige("mpc.update_fn.alpha_in_unit_interval", band(C.compare(">=", alpha, 0), C.compare("<=", alpha, 1)), assume_after=False)
+    post_cem_update(E, "mpc.update_fn", samples, fitness, mean, var, n_elite, alpha, lbs, ubs, mean2, var2)
     E.st.oblige("canary.mpc_init", C.as_bool(C.compare("==", mean2.at(0, 0), low.at(0) - 1)), assume_after=False, using=["pre.", "sort.", "action_space."])
 
 
@@ -733,7 +738,22 @@ def h_initial_plan(E):
         E.oblige("canary.initial_plan", C.compare("==", plan.at(0, 0), box.fields["low"].at(0) - 1), assume_after=False)
 
 
+def h_box_model(E):
+    """plumbing of the assumed Box model: attributes, isinstance tag, sample() inside the box"""
+    A = E.dim("D_act", 1)
+    box = mk_box(E, "action_space", A)
+    s1 = E.call(E.getattr(box, "sample"))
+    s2 = E.call(E.getattr(box, "sample"))
+    shape_is(E, "box.sample_shape", s1, E.getattr(box, "shape"))
+    post_in_box(E, "box.sample_in_bounds", box, s1)
+    post_in_box(E, "box.second_sample_in_bounds", box, s2)
+    E.oblige("box.is_box", LIB.builtins["isinstance"].fn(E, box, C.LibNS("gymnasium.spaces.Box")) is True)
+    E.oblige("canary.box_samples_equal", C.compare("==", s1.at(0), s2.at(0)), assume_after=False)
+    E.oblige("canary.box_sample_is_low", C.compare("==", s1.at(0), box.fields["low"].at(0)), assume_after=False)
+
+
 TASKS = [
+    Task("box_model", h_box_model),
     Task("sample_actions", mk_h_sample_actions("net", False), setup=setup_clip),
     Task("sample_actions_batch", mk_h_sample_actions("net", True), setup=setup_clip),
     Task("sample_actions_tanh_policy", mk_h_sample_actions("tanh", False), setup=setup_clip),
@@ -742,6 +762,10 @@ TASKS = [
     Task("sample_target_actions_tanh_policy", mk_h_sample_target_actions("tanh", True), setup=setup_clip),
     Task("tanh_policy", mk_h_tanh(False)),
     Task("tanh_policy_batch", mk_h_tanh(True)),
+    Task("sample_actions_one_action_dim", mk_h_sample_actions("tanh", True, act1=True), setup=setup_clip),
+    Task("sample_target_actions_one_action_dim", mk_h_sample_target_actions("tanh", True, act1=True), setup=setup_clip),
+    Task("sample_target_actions_batch_of_one", mk_h_sample_target_actions("net", 1, act1=True), setup=setup_clip),
+    Task("tanh_policy_one_action_dim", mk_h_tanh(True, act1=True)),
     Task("cem_sample", mk_h_cem_sample(1)),
     Task("cem_sample_plan", mk_h_cem_sample(2)),
     Task("cem_update", mk_h_cem_update(1)),
@@ -757,6 +781,45 @@ TASKS = [
     Task("pets_initial_plan", h_initial_plan),
 ]
 
-TRUSTED = []
-ASSUMPTIONS = []
-NOT_COVERED = []
+TRUSTED = [
+    "reals for floats (the property's 'up to floating-point rounding of the bound itself' caveat)",
+    "lemmas/SumLemmas.lean: PyvcSum.sum_mem_Icc, PyvcSum.sum_ge, PyvcSum.sum_le, PyvcSum.mean_mem_Icc "
+    "(rule sum_bounds_lemma: premise obliged, conclusion assumed); PyvcSum.sum_congr_range (Sum-node congruence)",
+    "lib jnp.clip(x, lo, hi) = minimum(maximum(x, lo), hi); tanh in [-1, 1]; sqrt(x)^2 = x and sqrt(x) >= 0 for x >= 0",
+    "lib jax.random.normal / truncated_normal(key, -2, 2, shape): uninterpreted functions of (key, index), the latter with values in [-2, 2]",
+    "lib jax.lax.top_k: indices of the k largest entries (descending sort permutation: distinct, in range); ties not modelled",
+    "lib gymnasium.spaces.Box: low <= high component-wise, sample() inside the box (pyvc/lib/ext_spaces.py)",
+    "lib nnx.Variable(v).value is v; nnx.jit / jax.jit / functools.partial are semantics-preserving wrappers",
+    "python list comprehension over range(n) with a pure element = n copies (core.SymComp) stacked by jnp.vstack / jnp.array",
+]
+ASSUMPTIONS = [
+    "action space is a 1-D Box with low_d <= high_d for every component (gymnasium's constructor check); bounds finite",
+    "noise_clip >= 0 (sample_target_actions); exploration_noise is ANY real (bounds hold even for negative noise levels)",
+    "the policy handed to the samplers is an arbitrary row-wise network (any output magnitude) or the tanh head around one",
+    "cem_sample requires lb <= mean <= ub, var >= 0 and equal shapes; cem_update requires samples and mean inside [lb, ub], "
+    "var >= 0, 0 <= alpha <= 1, 1 <= n_elite <= n_population",
+    "PETS: n_samples >= 10 so that n_elite = int(0.1 * n_samples) >= 1; avg_act inside the box and init_var >= 0 "
+    "(train_pets builds them as (high+low)/2 and (high-low)^2/16: to be established by the training-loop contract)",
+    "ts_inf / evaluate_plans are replaced by their documented result shapes with arbitrary values (their contents are C17); "
+    "the fitness / reward functions are arbitrary",
+]
+NOT_COVERED = [
+    "float32 rounding at the bound (tanh(y)*scale+bias may exceed high by an ulp): outside the real-arithmetic model, checked only by the replay driver's tolerance",
+    "the env.step(action) call sites of the training loops (training-loop contracts call post_in_box / post_sample_actions / post_mpc_action)",
+    "tie-breaking of lax.top_k; n_elite = int(0.1 * n_samples) == 0 for n_samples < 10 (mean of an empty elite set is NaN) is excluded by the configuration precondition",
+    "unbounded boxes (low = -inf / high = inf) - scale would be inf",
+]
+REPLAY = {
+    "sample_actions": "c10_bounds",
+    "sample_target_actions": "c10_bounds",
+    "tanh_policy": "c10_bounds",
+    "cem_": "c10_bounds",
+    "optimize_cem": "c10_bounds",
+    "pets_": "c10_bounds",
+}
+EXPLANATION = (
+    "Per-component bounds proofs over symbolic action dimension / batch / horizon / population sizes: the samplers' "
+    "results equal clip(pi(o) + noise, low, high) with the documented noise terms (observed at the executed jnp.clip calls), "
+    "the tanh head maps every real to [low, high], CEM candidates and updated means stay in [lb, ub] (sqrt / truncation "
+    "argument; mean-of-bounded-terms lemma), and the planner loops keep lb <= mean <= ub as a quantified loop invariant."
+)
